@@ -757,6 +757,7 @@ func single(ctx context.Context, c *ctxInfo, q query, rows []row, ps int, wire s
 	switch {
 	case out.code == codePanic:
 		w.Stat("token_panic", 1)
+		w.PropFail("a continuation token made the request panic", c.desc("token", q, ps, map[string]any{"wire": wire, "why": why}))
 	case out.code == codePage && len(out.items) > 0:
 		w.Stat("token_accepted_with_items", 1)
 	case out.code == codePage:
@@ -1177,7 +1178,7 @@ func runQueries(ctx context.Context, c *ctxInfo, r *rec.Rand) {
 	}
 }
 
-// runWitness replays the witnesses of Props/C14.v malformed_token_rejected_refuted (finding F5) on
+// runWitness replays the witnesses of the repaired finding F5 (fix 3cab6a7) on
 // the real memory backend: five tuples, page size 2, tokens "99|" and "-1|".
 func runWitness(ctx context.Context, w *rec.Writer, seed uint64, tier string) {
 	d := &dataset{idx: -1}
@@ -1200,6 +1201,15 @@ func runWitness(ctx context.Context, w *rec.Writer, seed uint64, tier string) {
 	q := query{api: apiRead}
 	rows := readRows(b, d, nil)
 	traverse(ctx, c, q, rows, 2)
+	// the former F5 witnesses (repaired by 3cab6a7): must never come back
+	if out := call(ctx, b, q, 2, b64("99|")); out.code == codePanic || (out.code == codePage && len(out.items) > 0) {
+		w.PropFail("memory Read: an offset token beyond the end of the listing returned items again (or panicked) instead of the empty last page or an error",
+			c.desc("token", q, 2, map[string]any{"wire": b64("99|"), "why": "F5-witness", "items": len(out.items)}))
+	}
+	if out := call(ctx, b, q, 2, b64("-1|")); out.code == codePanic || out.code == codePage {
+		w.PropFail("memory Read: a negative offset token was not rejected (panic or page)",
+			c.desc("token", q, 2, map[string]any{"wire": b64("-1|"), "why": "F5-witness", "code": out.code}))
+	}
 	single(ctx, c, q, rows, 2, b64("99|"), "F5-witness")
 	single(ctx, c, q, rows, 2, b64("-1|"), "F5-witness")
 	single(ctx, c, q, rows, 2, b64("4|"), "F5-contrast-in-range")
